@@ -31,7 +31,7 @@ COMPONENTS = {
     "stub": ["asyncio.wait_for of CPython 3.8-3.11 (transcribed, sim/legacy_asyncio.py) on ~25 % of the asyncio-driver runs", "event-loop selector and clock (VirtualLoop)", "os/glob/random in dali.driver.hid",
              "serial_asyncio in dali.driver.serial", "gateway firmware, DALI bus, bus units"],
 }
-PROBES = ["send-retried-after-reconnection", "progress-callback-raised", "parallel-sends-under-one-lock", "send-cancelled", "generator-misbehaves-on-close", "units-overlapped", "seq-raised", "seq-cancelled", "cancel-while-holding-lock",
+PROBES = ["caller-started-on-an-event", "slow-confirmation-set-aside", "send-retried-after-reconnection", "progress-callback-raised", "parallel-sends-under-one-lock", "send-cancelled", "generator-misbehaves-on-close", "units-overlapped", "seq-raised", "seq-cancelled", "cancel-while-holding-lock",
           "lock-contended", "dt-command-sent", "locked-unit", "start-tie"]
 
 
@@ -42,7 +42,7 @@ def gen_plan(seed, tier="quick"):
     plan = {"engine": "drvsim", "property": PROP, "driver": driver, "seed": seed,
             "knobs": plans.gen_knobs(r, driver, allow_batch=True),
             "callers": plans.gen_callers(r, driver, ncallers, 3 if tier == "quick" else 4,
-                                         cancel_sends=True, parallel=0.06, unsupported=0.04, connect_again=0.04),
+                                         cancel_sends=True, parallel=0.06, unsupported=0.04, connect_again=0.04, start_on_event=0.3),
             "deadline_s": 600}
     x = plans.rng_for(seed, PROP + "-retry")
     if driver in ("tridonic", "hasseb") and x.random() < 0.1:
@@ -120,6 +120,17 @@ def judge(rr):
                 V("unsupported-frame-not-refused", "unit %s: %d-bit frame, exceptions=%r: %s, wire %s" % (
                     u, rec.op["cmd"][0], rec.op.get("exceptions"), rec.status, _fmt(by_unit.get(u, []))), site=drv)
             continue
+        if rec.status == "raised" and rec.op.get("raise_at") is None and rec.op.get("progress_raise_at") is None \
+                and not rec.op.get("bad_close") and not rec.cancel_requested and not plan.get("write_fault_at"):
+            # nothing in this world makes a caller fail: no gateway loss, no silent gateway, no planned exception
+            slow = drv in ("luba", "sci") and any(
+                s_.get("conf_arrival_us") is None or s_["conf_arrival_us"] - s_["t_us"] > 0.8 * {"luba": 1e6, "sci": 1e5}[drv]
+                for s_ in rr.dev.sends if "t_us" in s_)
+            if slow:
+                rr.world.probe("slow-confirmation-set-aside")
+            else:
+                V("caller-fails-without-cause", "unit %s (%s) raised %r although gateway and bus were healthy" % (
+                    u, rec.op["kind"], rec.exc), site=type(rec.exc).__name__)
         specs = drvsim.op_cmd_specs(rec.op)
         exp = cmds.expected_wire(specs)
         got = by_unit.get(u, [])
